@@ -20,32 +20,34 @@ CONSTANTS MCPods,       \* pods that may be set up
           MCTrunk,      \* subset of BOOLEAN
           MCExtra,      \* subset of 0..2
           MCMulti,      \* subset of BOOLEAN
-          MCHow,        \* teardown variants {"cni", "dp"}
+          MCHow,        \* teardown variants, subset of {"cni", "dp", "generic"} (generic = GenericTearDown alone, the fallback DEL)
           BadDesign,    \* "" or the name of a seeded design error
           MCEnis,       \* ENIs (subnets) to choose from, subset of {1, 2}
           GenLen, GenOn
 VARIABLES hist,         \* controllable steps so far (scenario), only when GenOn
-          served        \* every pod of MCPods was set up at the same time at least once
+          served,       \* every pod of MCPods was set up at the same time at least once
+          freed         \* per pod slot: subnet (ENI number) and families of the address its last, torn-down pod held; e = 0: none
 
 (* ---------------------------------------------------------------- concrete values of the bounded model *)
 B16(a, b, y, z) == <<253, 0, 0, a, 0, b, 0, 0, 0, 0, 0, 0, 0, 0, y, z>>
 Ip4(e, k) == <<10, 10 + e, 0, k>>
 Ip6(e, k) == B16(16, e, 0, k)
 HostNo(p, i) == 16 * p + i + 1
-MCCfg(p, i, dp, fam, e, def, multi, extra, trunk, peer) ==
+(* ae = the subnet the pod address comes from: normally that of ENI e; when an address is re-used it may be another ENI's *)
+MCCfg(p, i, dp, fam, e, ae, def, multi, extra, trunk, peer) ==
     LET v4 == fam # "v6"  v6 == fam # "v4" IN
     [att |-> 2 * (p - 1) + i + 1, pod |-> p, dp |-> dp, ifname |-> IF i = 0 THEN "eth0" ELSE "eth1",
      hostveth |-> IF i = 0 THEN <<"caliA0", "caliB0", "caliC0">>[p] ELSE <<"caliA1", "caliB1", "caliC1">>[p],
      eni |-> IF dp = "exclusive" THEN "eniX" ELSE IF e = 1 THEN "eth1" ELSE "eth2",
      slave |-> IF dp = "ipvlan" THEN (IF e = 1 THEN "ipvl_3" ELSE "ipvl_4") ELSE "",
-     ip4 |-> IF v4 THEN Ip4(e, HostNo(p, i)) ELSE <<>>, len4 |-> IF v4 THEN 24 ELSE 0,
-     ip6 |-> IF v6 THEN Ip6(e, HostNo(p, i)) ELSE <<>>, len6 |-> IF v6 THEN 64 ELSE 0,
+     ip4 |-> IF v4 THEN Ip4(ae, HostNo(p, i)) ELSE <<>>, len4 |-> IF v4 THEN 24 ELSE 0,
+     ip6 |-> IF v6 THEN Ip6(ae, HostNo(p, i)) ELSE <<>>, len6 |-> IF v6 THEN 64 ELSE 0,
      gw4 |-> IF v4 THEN Ip4(e, 253) ELSE <<>>, gw6 |-> IF v6 THEN B16(16, e, 255, 253) ELSE <<>>,
      egw4 |-> IF v4 /\ trunk THEN <<10, 99, 0, 253>> ELSE <<>>, egw6 |-> IF v6 /\ trunk THEN B16(153, 0, 255, 253) ELSE <<>>,
      strip |-> trunk, defroute |-> def, multi |-> multi, peer |-> peer,
      extra |-> (IF extra >= 1 /\ v4 THEN <<[ip |-> <<100, 100, 0, 0>>, len |-> 16, gw |-> Ip4(e, 253)]>> ELSE <<>>)
                \o (IF extra >= 1 /\ v6 THEN <<[ip |-> B16(238, 1, 0, 0), len |-> 64, gw |-> B16(16, e, 255, 253)]>> ELSE <<>>),
-     host4 |-> IF v4 THEN <<10, 88, 0, 10>> ELSE <<>>, host6 |-> IF v6 THEN B16(136, 0, 0, 16) ELSE <<>>, eniIdx |-> 2 + e]
+     host4 |-> IF v4 THEN <<10, 88, 0, 10>> ELSE <<>>, host6 |-> IF v6 THEN B16(136, 0, 0, 16) ELSE <<>>, eniIdx |-> 2 + e, aeni |-> ae]
 
 (* ---------------------------------------------------------------- the reference design *)
 Rt(t, dst, dev, gw, scope) == [table |-> t, dst |-> dst, dev |-> dev, gw |-> gw, scope |-> scope, metric |-> 0, type |-> "unicast", proto |-> "boot"]
@@ -59,6 +61,8 @@ If(b, s) == IF b THEN s ELSE <<>>
 SubLen(c, f) == IF f = 4 THEN c.len4 ELSE c.len6
 Sys6(c, dev) == If(6 \in Fams(c), <<[key |-> "net/ipv6/conf/" \o dev \o "/disable_ipv6=0", fam |-> 6]>>)
 Bad(x) == BadDesign = x
+NoFreed == [e |-> 0, fam |-> ""]
+FamName(c) == IF Fams(c) = {4} THEN "v4" ELSE IF Fams(c) = {6} THEN "v6" ELSE "dual"
 
 PodTable(c) == 1000 + (IF c.ifname = "eth0" THEN 2 ELSE 3)
 EniTable(c) == 1000 + c.eniIdx
@@ -123,6 +127,13 @@ RefTeardown(S, gone) ==
                                                 /\ ~(Bad("teardown_flushes_eni_table") /\ r.table \in { EniTable(c) : c \in cs }) }]
     IN  [n \in NsIds |-> IF n = 0 THEN h2 ELSE IF n \in { c.pod : c \in cs } THEN EmptyNs ELSE S[n]]
 
+(* the fallback DEL (utils.GenericTearDown alone): the pod's links go, and with a veth its host peer and what hangs on it; the *)
+(* pod's rules -- and routes on devices that stay, like the ipvlan slave -- are left behind                                   *)
+RefGeneric(S, gone) ==
+    LET cs == { live[a] : a \in gone }
+        h1 == FoldLeft(LAMBDA s, name : DelLink(s, name), S[0], SetToSeq({ c.hostveth : c \in { x \in cs : x.dp \in {"policy", "exclusive"} } }))
+    IN  [n \in NsIds |-> IF n = 0 THEN h1 ELSE IF n \in { c.pod : c \in cs } THEN EmptyNs ELSE S[n]]
+
 (* ---------------------------------------------------------------- initial node: eth0 with the node addresses and default routes, two ENIs *)
 NodeNs ==
     LET s0 == [EmptyNs EXCEPT !.links = { [name |-> "lo", idx |-> 1, kind |-> "device", peer |-> 0, mac |-> ""], [name |-> "eth0", idx |-> 2, kind |-> "device", peer |-> 0, mac |-> "mac-eth0"],
@@ -136,6 +147,7 @@ MCInit == /\ ns = [n \in NsIds |-> IF n = 0 THEN NodeNs ELSE EmptyNs]
           /\ owned = [a \in Atts |-> {}]
           /\ hist = <<>>
           /\ served = FALSE
+          /\ freed = [p \in MCPods |-> NoFreed]
 
 ASet == IF Len(hist) > 0 THEN hist[1].aset ELSE 0
 H(x) == hist' = IF GenOn THEN Append(hist, x) ELSE hist
@@ -143,10 +155,10 @@ AttId(p, i) == 2 * (p - 1) + i + 1
 
 StepRec(p, i, dp, fam, e, def, multi, extra, trunk, peer) ==
     [a |-> "setup", p |-> p, i |-> i, dp |-> dp, fam |-> fam, eni |-> e, def |-> def, multi |-> multi, extra |-> extra, trunk |-> trunk,
-     peer |-> peer, aset |-> ASet, how |-> ""]
+     peer |-> peer, aset |-> ASet, how |-> "", keep |-> FALSE]
 
 (* parameter choices of a first interface; the generator draws one at random per step instead of branching over all *)
-Params == { r \in [dp : MCDps, fam : MCFams, e : MCEnis, multi : MCMulti, extra : MCExtra, trunk : MCTrunk, peer : BOOLEAN, aset : 0..2] :
+Params == { r \in [dp : MCDps, fam : MCFams, e : MCEnis, multi : MCMulti, extra : MCExtra, trunk : MCTrunk, peer : BOOLEAN, aset : 0..2, keep : BOOLEAN] :
               /\ (r.trunk => r.dp \in {"policy", "ipvlan"}) /\ (~r.peer => r.dp = "exclusive")
               /\ (~GenOn => r.aset = 0) }
 Draw(S) == IF GenOn /\ S # {} THEN {RandomElement(S)} ELSE S
@@ -156,42 +168,57 @@ Step ==
         /\ ~IsLive(live, AttId(p, 0)) /\ ~IsLive(live, AttId(p, 1))
         (* an ENI is a trunk or it is not: the pods sharing it agree *)
         /\ \A b \in Atts : IsLive(live, b) /\ live[b].dp \in {"policy", "ipvlan"} /\ r.dp \in {"policy", "ipvlan"} /\ live[b].eniIdx = 2 + r.e => live[b].strip = r.trunk
-        /\ LET c == MCCfg(p, 0, r.dp, r.fam, r.e, TRUE, r.multi, r.extra, r.trunk, r.peer)  ref == RefSetup(c) IN
-           /\ SetupOk(c, Applied(ns, ref.links, ref.confs))
+        (* keep: the new pod in this slot is given the address the slot's previous pod held (possibly on another ENI now) *)
+        /\ (~GenOn /\ r.keep) => freed[p].e # 0
+        /\ LET kp == freed[p].e # 0 /\ (IF GenOn THEN RandomElement(1..4) # 1 ELSE r.keep)      \* the generator favours re-use
+               ae == IF kp THEN freed[p].e ELSE r.e
+               fam == IF kp THEN freed[p].fam ELSE r.fam
+               c == MCCfg(p, 0, r.dp, fam, r.e, ae, TRUE, r.multi, r.extra, r.trunk, r.peer)
+               ref == RefSetup(c)
+               A == Applied(ns, ref.links, ref.confs)
+               S == IF Bad("stale_from_rule_kept") THEN [A EXCEPT ![0].rules = @ \cup { x \in ns[0].rules : x.prio = 2048 /\ x.src \in PodAddrs(c) }] ELSE A IN
+           /\ SetupOk(c, S)
            /\ G("C13", Judge(ViolSysctl(c, ref.confs)))
-           /\ H([StepRec(p, 0, r.dp, r.fam, r.e, TRUE, r.multi, r.extra, r.trunk, r.peer) EXCEPT !.aset = IF Len(hist) > 0 THEN hist[1].aset ELSE r.aset])
+           /\ freed' = [freed EXCEPT ![p] = NoFreed]
+           /\ H([StepRec(p, 0, r.dp, fam, r.e, TRUE, r.multi, r.extra, r.trunk, r.peer) EXCEPT !.aset = (IF Len(hist) > 0 THEN hist[1].aset ELSE r.aset), !.keep = kp])
   \/ \E p \in MCPods : \E extra \in Draw(MCExtra) :
         (* the second interface of a multi-network pod: other ENI, no default route, same datapath and families *)
         /\ IsLive(live, AttId(p, 0)) /\ live[AttId(p, 0)].multi /\ ~IsLive(live, AttId(p, 1))
         /\ LET c0 == live[AttId(p, 0)]
-               fam == IF Fams(c0) = {4} THEN "v4" ELSE IF Fams(c0) = {6} THEN "v6" ELSE "dual"
+               fam == FamName(c0)
                e == 5 - c0.eniIdx
-               c == MCCfg(p, 1, c0.dp, fam, e, FALSE, TRUE, extra, c0.strip, FALSE)
+               c == MCCfg(p, 1, c0.dp, fam, e, e, FALSE, TRUE, extra, c0.strip, FALSE)
                ref == RefSetup(c) IN
            /\ \A b \in Atts : IsLive(live, b) /\ live[b].dp \in {"policy", "ipvlan"} /\ c.dp \in {"policy", "ipvlan"} /\ live[b].eniIdx = c.eniIdx => live[b].strip = c.strip
            /\ SetupOk(c, Applied(ns, ref.links, ref.confs))
            /\ G("C13", Judge(ViolSysctl(c, ref.confs)))
+           /\ UNCHANGED freed
            /\ H(StepRec(p, 1, c0.dp, fam, e, FALSE, TRUE, extra, c0.strip, FALSE))
   \/ \E p \in MCPods : \E how \in Draw(MCHow) :
         /\ AttsOf(p) # {}
-        /\ TeardownOk(p, RefTeardown(ns, AttsOf(p)), AttsOf(p))
+        /\ IF how = "generic" THEN TeardownGeneric(p, RefGeneric(ns, AttsOf(p)), AttsOf(p))
+           ELSE TeardownOk(p, RefTeardown(ns, AttsOf(p)), AttsOf(p))
+        /\ freed' = [freed EXCEPT ![p] = IF IsLive(live, AttId(p, 0)) /\ (GenOn \/ "generic" \in MCHow) THEN [e |-> live[AttId(p, 0)].aeni, fam |-> FamName(live[AttId(p, 0)])] ELSE @]
         /\ H([a |-> "teardown", p |-> p, i |-> 0, dp |-> "", fam |-> "", eni |-> 0, def |-> FALSE, multi |-> FALSE, extra |-> 0, trunk |-> FALSE,
-              peer |-> FALSE, aset |-> ASet, how |-> how])
+              peer |-> FALSE, aset |-> ASet, how |-> how, keep |-> FALSE])
 
 Emit(h) == Serialize(ToJson(h) \o "\n", IOEnv.VERIF_SCEN,
                      [format |-> "TXT", charset |-> "UTF-8", openOptions |-> <<"WRITE", "CREATE", "APPEND">>]).exitValue = 0
 Finish == /\ Len(hist) > 0 /\ hist[1].a # "end"
           /\ Emit(hist)
           /\ hist' = <<[a |-> "end"]>>
-          /\ UNCHANGED <<vars, served>>
+          /\ UNCHANGED <<vars, served, freed>>
 
 AllServed(L) == \A p \in MCPods : IsLive(L, AttId(p, 0))
 MCNext == IF GenOn /\ Len(hist) >= GenLen THEN Finish
-          ELSE IF GenOn /\ Len(hist) > 0 /\ hist[1].a = "end" THEN UNCHANGED <<vars, hist, served>>
+          ELSE IF GenOn /\ Len(hist) > 0 /\ hist[1].a = "end" THEN UNCHANGED <<vars, hist, served, freed>>
           ELSE Step /\ served' = (served \/ AllServed(live'))
-MCSpec == MCInit /\ [][MCNext]_<<vars, hist, served>>
+MCSpec == MCInit /\ [][MCNext]_<<vars, hist, served, freed>>
 
 (* with a seeded design error (BadDesign # "") some guard must refuse a step: the pods can never be all set up and then all *)
 (* torn down again.  Checked as an invariant by the *_bad runs: the guards are not vacuous.                                *)
+(* for the design error "a stale from-rule of the address survives Setup" (all teardowns generic): a policy-route pod can never *)
+(* be set up with an address that was last held on another ENI                                                                   *)
+ReuseRefused == ~\E a \in Atts : IsLive(live, a) /\ live[a].dp = "policy" /\ live[a].aeni # live[a].eniIdx - 2
 BadRefused == ~(served /\ \A a \in Atts : ~IsLive(live, a) /\ owned[a] = {})
 =============================================================================
